@@ -83,8 +83,31 @@ def validator_stateflow(repo, use_a1=True, excepted=True):
                     sf_.align_obs.append((fr.mod, fr.name, call, "aligned" in st.E, fr.stack))
             return st
 
+        sf.level_dict_obs = []  # (mod, fn, call node, key, ok, stack): uses of the level dict needing key "level"
+
+        def pre_level(sf_, call, target, st, fr):
+            if target is None or getattr(target, "kind", None) != "func":
+                return st
+            if target.name == "assert_level_constraint" and len(call.args) >= 2:
+                from .core import const_str
+
+                k = const_str(call.args[1])
+                if k != "level" and sf_.recording:
+                    sf_.level_dict_obs.append((fr.mod, fr.name, call, k, "lc:level" in st.E, fr.stack))
+            return st
+
+        def post_level(sf_, call, target, before, after, fr):
+            if target is not None and getattr(target, "kind", None) == "func" and target.name == "assert_level_constraint" and len(call.args) >= 2:
+                from .core import const_str
+
+                if const_str(call.args[1]) == "level":
+                    return after.with_E("lc:level")
+            return after
+
         sf.hooks.append(pre)
+        sf.hooks.append(pre_level)
         sf.post_hooks.append(_align_post)
+        sf.post_hooks.append(post_level)
         sf.solve(VALIDATOR_ROOTS)
         return sf
 
